@@ -19,6 +19,24 @@ use crate::hook::Icpt;
 
 thread_local! {
     static LAST_PANIC: RefCell<Option<String>> = const { RefCell::new(None) };
+    /// Depth of "running code under test" regions on this thread: panics there are verdicts and
+    /// are recorded quietly; panics elsewhere are harness bugs and are printed.
+    static IN_SUBJECT: std::cell::Cell<usize> = const { std::cell::Cell::new(0) };
+}
+
+pub struct SubjectGuard;
+
+impl SubjectGuard {
+    pub fn enter() -> SubjectGuard {
+        IN_SUBJECT.with(|c| c.set(c.get() + 1));
+        SubjectGuard
+    }
+}
+
+impl Drop for SubjectGuard {
+    fn drop(&mut self) {
+        IN_SUBJECT.with(|c| c.set(c.get().saturating_sub(1)));
+    }
 }
 
 /// Install a panic hook that records the message and location instead of printing.
@@ -36,8 +54,10 @@ pub fn install_quiet_panic_hook() {
             .location()
             .map(|l| format!("{}:{}", l.file(), l.line()))
             .unwrap_or_default();
-        if verbose {
-            eprintln!("panic at {loc}: {msg}");
+        let in_subject = IN_SUBJECT.with(|c| c.get() > 0);
+        let tokio_worker = std::thread::current().name().is_some_and(|n| n.starts_with("tokio-runtime"));
+        if verbose || !(in_subject || tokio_worker) {
+            eprintln!("vh: panic at {loc}: {msg}");
         }
         LAST_PANIC.with(|p| *p.borrow_mut() = Some(format!("{loc}: {msg}")));
     }));
@@ -169,6 +189,7 @@ where
         build_rt(flavor)
     };
     let notify = icpt.as_ref().map(|i| i.notify.clone());
+    let _subject = SubjectGuard::enter();
     let r = catch_unwind(AssertUnwindSafe(|| {
         rt.block_on(async {
             let guarded = CatchPanic(Some(Box::pin(fut)));
